@@ -42,6 +42,8 @@ type Fam struct {
 	addrs   map[int]sdk.Address // key id -> address
 	privs   map[int][64]byte
 	armors  map[int]string
+	pass    map[int]string // key id -> passphrase (hex) it is currently stored under, as the harness recorded it
+	armPass map[int]string // export id -> passphrase it was encrypted with
 	nextKey int
 	nextArm int
 	started bool
@@ -355,6 +357,7 @@ func (f *Fam) Exec(op string) (obs string, fails []common.Failure) {
 	case "kb.new":
 		f.kb = keys.NewInMemory()
 		f.addrs, f.privs, f.armors = map[int]sdk.Address{}, map[int][64]byte{}, map[int]string{}
+		f.pass, f.armPass = map[int]string{}, map[int]string{}
 		f.nextKey, f.nextArm = 0, 0
 		return "ok", nil
 	case "kb.create":
@@ -365,6 +368,7 @@ func (f *Fam) Exec(op string) (obs string, fails []common.Failure) {
 		k := f.nextKey
 		f.nextKey++
 		f.addrs[k] = kp.GetAddress()
+		f.pass[k] = w[2]
 		if obj, err := f.kb.ExportPrivateKeyObject(kp.GetAddress(), ph(w[2])); err == nil {
 			var raw [64]byte
 			copy(raw[:], obj.RawBytes())
@@ -407,26 +411,43 @@ func (f *Fam) Exec(op string) (obs string, fails []common.Failure) {
 		}
 		return true
 	}
+	// the harness's own record of which passphrase opens which stored key (a plain map)
+	judge := func(ok bool, key int, pass string) {
+		want, stored := f.pass[key]
+		switch {
+		case ok && (!stored || want != pass):
+			fail("wrong-pass-never-works", "C19:wrong-passphrase-accepted", fmt.Sprintf("%s succeeded although the key is stored under another passphrase (or not at all)", op))
+		case !ok && stored && want == pass:
+			fail("right-pass-works", "C19:right-passphrase-refused", fmt.Sprintf("%s failed although that is the passphrase the key is stored under", op))
+		}
+	}
 	switch w[0] {
 	case "kb.delete":
 		if err := f.kb.Delete(addr, ph(w[2])); err != nil {
+			judge(false, k, w[2])
 			if !unchanged() {
 				fail("wrong-pass-no-effect", "C19:failed-delete-changed-store", op)
 			}
 			return "err", fails
 		}
-		return "ok", nil
+		judge(true, k, w[2])
+		delete(f.pass, k)
+		return "ok", fails
 	case "kb.update":
 		if err := f.kb.Update(addr, ph(w[2]), ph(w[3])); err != nil {
+			judge(false, k, w[2])
 			if !unchanged() {
 				fail("wrong-pass-no-effect", "C19:failed-update-changed-store", op)
 			}
 			return "err", fails
 		}
-		return "ok", nil
+		judge(true, k, w[2])
+		f.pass[k] = w[3]
+		return "ok", fails
 	case "kb.sign":
 		m, _ := strconv.Atoi(w[3])
 		sig, pub, err := f.kb.Sign(addr, ph(w[2]), msgBytes(m))
+		judge(err == nil, k, w[2])
 		if err != nil {
 			if !unchanged() {
 				fail("wrong-pass-no-effect", "C19:failed-sign-changed-store", op)
@@ -448,10 +469,12 @@ func (f *Fam) Exec(op string) (obs string, fails []common.Failure) {
 			addr = sdk.Address(bytes.Repeat([]byte{byte(k)}, 20))
 		}
 		arm, err := f.kb.ExportPrivKeyEncryptedArmor(addr, ph(w[3]), ph(w[4]), "")
+		judge(err == nil, k, w[3])
 		if err != nil {
-			return "err", nil
+			return "err", fails
 		}
 		f.armors[aid] = arm
+		f.armPass[aid] = w[4]
 		if aid >= f.nextArm {
 			f.nextArm = aid + 1
 		}
@@ -462,6 +485,9 @@ func (f *Fam) Exec(op string) (obs string, fails []common.Failure) {
 			return "err", nil
 		}
 		kp, err := f.kb.ImportPrivKey(arm, ph(w[2]), ph(w[3]))
+		if err == nil && f.armPass[k] != w[2] {
+			fail("wrong-pass-never-works", "C19:wrong-passphrase-accepted", op+": an export was opened with a passphrase other than the one it was encrypted with")
+		}
 		if err != nil {
 			if !unchanged() {
 				fail("wrong-pass-no-effect", "C19:failed-import-changed-store", op)
@@ -471,12 +497,15 @@ func (f *Fam) Exec(op string) (obs string, fails []common.Failure) {
 		id := f.idOf(kp.GetAddress())
 		if id < 0 {
 			fail("same-key", "C19:import-yields-unknown-key", op)
+		} else {
+			f.pass[id] = w[3]
 		}
 		return fmt.Sprintf("key %d", id), fails
 	case "kb.exportobj":
 		obj, err := f.kb.ExportPrivateKeyObject(addr, ph(w[2]))
+		judge(err == nil, k, w[2])
 		if err != nil {
-			return "err", nil
+			return "err", fails
 		}
 		if raw, ok := f.privs[k]; ok && !bytes.Equal(raw[:], obj.RawBytes()) {
 			fail("same-key", "C19:export-yields-different-key", op)
@@ -493,6 +522,9 @@ func (f *Fam) Exec(op string) (obs string, fails []common.Failure) {
 				fail("wrong-pass-no-effect", "C19:failed-import-changed-store", op)
 			}
 			return "err", fails
+		}
+		if id := f.idOf(kp.GetAddress()); id >= 0 {
+			f.pass[id] = w[2]
 		}
 		return fmt.Sprintf("key %d", f.idOf(kp.GetAddress())), nil
 	}
